@@ -14,6 +14,10 @@ Histories recorded here (every result is judged, none by this file):
     options (src "store");
   * files whose header voxel size (pixdim) disagrees with the column norms of
     the sform (plan["pixdim"], plan["qform"]);
+  * fine voxels (plan["lenunit"]): affines at electron-microscopy scale or
+    with voxel sizes that are thirds / sevenths of a millimetre - not a whole
+    number of nanometres; A, a and the printed lengths are expressed in the
+    plan's own small length unit (pure change of unit on both sides);
   * files that declare a spatial unit (plan["xyzt"]: micron, meter, mm,
     unknown): the printed lengths are re-encoded under the millimetre
     convention and, as an alternative, under the declared unit;
@@ -75,16 +79,26 @@ def q2(f):
     return [f.numerator, f.denominator]
 
 
+def length_unit(plan):
+    """the length unit of the plan's affine (A, a, vs) in millimetres.  1 for
+    ordinary plans; electron-microscopy-scale plans give their affine in a
+    small unit (2^-20 mm, 10 nm, the float32 nearest to 4.3e-6 mm ...) so that
+    the exact rationals of the oracle keep small numerators and denominators.
+    The file holds the binary32/binary64 numbers nearest to A * unit."""
+    return Fraction(plan.get("lenunit", 1))
+
+
 def build_nifti(path, plan, data):
     """plan['A'] 3x3, plan['a'] 3 as Fractions (mm).  NIfTI-1 stores the sform
     in float32: used only when every entry is exactly representable there;
     otherwise NIfTI-2 (float64 sform)."""
     import nibabel
+    lu = length_unit(plan)      # A, a are given in this many millimetres (1 unless plan["lenunit"])
     aff = np.eye(4)
     for r in range(3):
         for k in range(3):
-            aff[r, k] = float(plan["A"][r][k])
-        aff[r, 3] = float(plan["a"][r])
+            aff[r, k] = float(plan["A"][r][k] * lu)
+        aff[r, 3] = float(plan["a"][r] * lu)
     cls = nibabel.Nifti1Image if plan["nifti"] == 1 else nibabel.Nifti2Image
     img = cls(data, aff, dtype=data.dtype)
     if plan.get("pixdim"):
@@ -118,11 +132,15 @@ def check_file_affine(path, plan):
     from . import tlc
     img = nibabel.load(path)
     aff = img.affine
+    lu = length_unit(plan)
+    if plan["nifti"] == 1 and not (all(float32_exact(x * lu) for row in plan["A"] for x in row)
+                                   and all(float32_exact(x * lu) for x in plan["a"])):
+        raise tlc.MachineryError("NIfTI-1 plan whose affine is not exact in float32")
     for r in range(3):
         for k in range(3):
-            if float(aff[r, k]) != float(plan["A"][r][k]):
+            if float(aff[r, k]) != float(plan["A"][r][k] * lu):
                 raise tlc.MachineryError("file affine differs from the plan at (%d,%d)" % (r, k))
-        if float(aff[r, 3]) != float(plan["a"][r]):
+        if float(aff[r, 3]) != float(plan["a"][r] * lu):
             raise tlc.MachineryError("file translation differs from the plan at %d" % r)
     if plan.get("pixdim"):
         z = img.header.get_zooms()[:3]
@@ -173,23 +191,26 @@ def lengths_under(resolution, M, floor, unit):
     return alt
 
 
-def observe(info, transform, vmin_mm, decls=()):
+def observe(info, transform, vmin_mm, decls=(), base=Fraction(1)):
     """re-encode what the tool produced (no comparison with any expectation).
     The lengths are encoded in the millimetre convention (1 file unit = 1 mm);
     for every other unit in `decls` (units declared by the files involved) an
-    alternative encoding of the SAME printed numbers is added to o["alts"]."""
-    o = _observe_mm(info, transform, vmin_mm)
+    alternative encoding of the SAME printed numbers is added to o["alts"].
+    `base` = the length unit of the case's affine in mm (length_unit(plan)): the
+    printed lengths are expressed in the same unit as the oracle's A and a."""
+    o = _observe_mm(info, transform, vmin_mm, base)
     pure = [n for n in o["nonrat"] if not (n.startswith("res") or n.startswith("t"))]
     o["alts"] = []
     for u in sorted(set(decls)):
         if u != 1:
-            alt = lengths_under(info["scales"][0]["resolution"], transform, Fraction(vmin_mm), u)
+            alt = lengths_under(info["scales"][0]["resolution"], transform, Fraction(vmin_mm), u * base)
+            alt["unit"] = q2(u)
             alt["nonrat"] = pure + alt["nonrat"]
             o["alts"].append(alt)
     return o
 
 
-def _observe_mm(info, transform, vmin_mm):
+def _observe_mm(info, transform, vmin_mm, base=Fraction(1)):
     o = {"ok": True, "nonrat": [], "hugeres": [], "huget": [], "hugeT": [], "hugebottom": []}
     sc = info["scales"][0]
     o["size"] = [int(v) if float(v).is_integer() else -1 for v in sc["size"]]
@@ -205,7 +226,7 @@ def _observe_mm(info, transform, vmin_mm):
     floor_mm = Fraction(vmin_mm)
     res = []
     for k, v in enumerate(sc["resolution"]):
-        q = snap_len(v, floor_mm)
+        q = snap_len(v, floor_mm, base)
         if q is None:
             o["nonrat"].append("res%d" % k)
             q = Fraction(0)
@@ -228,7 +249,7 @@ def _observe_mm(info, transform, vmin_mm):
                 q = Fraction(0)
             row.append(q2(q))
         T.append(row)
-        q = snap_len(M[r][3], floor_mm)
+        q = snap_len(M[r][3], floor_mm, base)
         if q is None:
             o["nonrat"].append("t%d" % r)
             q = Fraction(0)
@@ -311,21 +332,21 @@ def toggled_sharding(plan, shape):
     return [shape[0] % 6, shape[1] % 6, shape[2] % 5, "gzip" if (shape[0] + shape[1]) % 2 else "raw"]
 
 
-def read_pair(out, vmin, decls=()):
+def read_pair(out, vmin, decls=(), base=Fraction(1)):
     """re-encode the pair info_fullres.json + transform.json found in a directory"""
     try:
         with open(os.path.join(out, "info_fullres.json")) as f:
             info = json.load(f)
         with open(os.path.join(out, "transform.json")) as f:
             tr = json.load(f)
-        return observe(info, tr, vmin, decls)
+        return observe(info, tr, vmin, decls, base)
     except Exception as e:
         return {"ok": False, "why": type(e).__name__}
 
 
 def vol_record(plan, dfacts, ffacts):
     return {"layout": ffacts["layout"], "shape": ffacts["shape"], "K": [K, 1],
-            "unit": q2(declared_unit(plan)),
+            "unit": q2(declared_unit(plan)), "lenunit_mm": str(length_unit(plan)),
             "A": [[q2(plan["A"][r][k]) for k in range(3)] for r in range(3)],
             "a": [q2(plan["a"][r]) for r in range(3)], "data": dfacts}
 
@@ -343,15 +364,16 @@ def run_info_case(work, plan, data):
         out = os.path.join(d, "out")
         os.makedirs(out)
         build_nifti(nii, plan, data)
-        if plan.get("pixdim") or plan.get("xyzt"):
+        if plan.get("pixdim") or plan.get("xyzt") or plan.get("lenunit"):
             check_file_affine(nii, plan)
         dfacts, ffacts = data_facts(nii, plan.get("ignore_scaling", False))
         argv, opts, sh = cli_args(plan, nii, out)
         res = vd.run_main(v2p.main, argv, record=False)
         vmin = min(plan["vs"])
         decls = (declared_unit(plan),)
+        base = length_unit(plan)
         obs = []
-        o = read_pair(out, vmin, decls)
+        o = read_pair(out, vmin, decls, base)
         o["src"] = "file"
         o["req"] = req_of(sh)
         obs.append(o)
@@ -361,7 +383,7 @@ def run_info_case(work, plan, data):
                 img = nibabel.load(nii)
                 fi, jt, _, _ = volume_reader.nibabel_image_to_info(
                     img, ignore_scaling=bool(plan.get("ignore_scaling")), options=opts)
-            o2 = observe(json.loads(fi), [[float(x) for x in row] for row in jt], vmin, decls)
+            o2 = observe(json.loads(fi), [[float(x) for x in row] for row in jt], vmin, decls, base)
             compact_src = [[float(x) for x in row] for row in jt]
         except Exception as e:
             o2 = {"ok": False, "why": type(e).__name__}
@@ -377,7 +399,7 @@ def run_info_case(work, plan, data):
                 with vd.silenced():
                     fi, jt, _, _ = volume_reader.nibabel_image_to_info(
                         img, ignore_scaling=bool(plan.get("ignore_scaling")), options=api_opts(sh2))
-                o3 = observe(json.loads(fi), [[float(x) for x in row] for row in jt], vmin, decls)
+                o3 = observe(json.loads(fi), [[float(x) for x in row] for row in jt], vmin, decls, base)
             except Exception as e:
                 o3 = {"ok": False, "why": type(e).__name__}
             o3["src"] = "api2"
@@ -390,7 +412,7 @@ def run_info_case(work, plan, data):
                     acc = ngacc.get_accessor_for_url(out2, accessor_options=opts)
                     volume_reader.store_nibabel_image_to_fullres_info(
                         img, acc, ignore_scaling=bool(plan.get("ignore_scaling")), options=opts)
-                o4 = read_pair(out2, vmin, decls)
+                o4 = read_pair(out2, vmin, decls, base)
             except Exception as e:
                 o4 = {"ok": False, "why": type(e).__name__}
             o4["src"] = "store"
